@@ -100,20 +100,20 @@ where
 /// Ligero (univariate) end to end against the algebraic model: the coefficient matrix, the opened vectors, the queried
 /// columns, the verifier's decision on the honest proof, on a false value and on mutated proofs (the proof "as sent"
 /// and the verifier's own transcript are handed to the model).
-fn ligflow(c: &Case, out: &mut Out) {
-    use ark_poly::DenseUVPolynomial;
+fn ligflow<L, P>(c: &Case, out: &mut Out, poly: P, z: P::Point)
+where
+    P: ark_poly::Polynomial<Fr> + Clone,
+    P::Point: Clone,
+    L: LinearEncode<Fr, MTConfig, P, ColH<Fr>, LinCodePCParams = ark_poly_commit::linear_codes::LigeroPCParams<Fr, MTConfig, ColH<Fr>>>,
+{
     use ark_poly_commit::linear_codes::LinearCodePCS;
     use ark_poly_commit::LabeledPolynomial;
-    type L = UnivariateLigero<Fr, MTConfig, UniPoly, ColH<Fr>>;
-    type PCS = LinearCodePCS<L, Fr, UniPoly, MTConfig, ColH<Fr>>;
+    type PCS<L, P> = LinearCodePCS<L, Fr, P, MTConfig, ColH<Fr>>;
     let pp = crate::schemes::ligero_params(c).expect("lig parameters");
     let lig = c.usizes("lig");
     let (ck, vk) = (pp.clone(), pp.clone());
-    let coeffs: Vec<Fr> = fs_from_strs(c.get("poly"));
-    let poly = UniPoly::from_coefficients_vec(coeffs.clone());
-    let z: Fr = f_from_str(c.str1("pt"));
     let lp = LabeledPolynomial::new("p".into(), poly.clone(), None, None);
-    let cmr = guard_any(|| PCS::commit(&ck, [&lp], None));
+    let cmr = guard_any(|| PCS::<L, P>::commit(&ck, [&lp], None));
     out.obs1("commit", "S", cmr.class());
     let (cm, st) = match cmr.ok() { Some(x) => x, None => return };
     let (n_rows, n_cols, n_ext) = lh::commitment_metadata(cm[0].commitment());
@@ -124,8 +124,9 @@ fn ligflow(c: &Case, out: &mut Out) {
     let dom = GeneralEvaluationDomain::<Fr>::new(n_cols * lig[1]).unwrap();
     out.input("omega", &[f_to_str(&dom.group_gen())]);
     out.obs1("dom_size", "N", dom.size().to_string());
-    // the polynomial as the library holds it (trailing zeros stripped)
-    out.input("coeffs", &{ let v = fs_to_strs(&poly.coeffs); if v.is_empty() { vec!["-".into()] } else { v } });
+    // the vector the library arranges into the matrix (coefficients with trailing zeros stripped / evaluations) and the point as a vector
+    out.input("coeffs", &{ let v = fs_to_strs(&L::poly_to_vec(&poly)); if v.is_empty() { vec!["-".into()] } else { v } });
+    out.input("point_vec", &{ let v = fs_to_strs(&L::point_to_vec(z.clone())); if v.is_empty() { vec!["-".into()] } else { v } });
     let tape = |sp: &RecSponge<Fr>, pre: &str, out: &mut Out| {
         let mut k = 0;
         let mut r: Vec<String> = vec![];
@@ -140,7 +141,7 @@ fn ligflow(c: &Case, out: &mut Out) {
         out.input(&format!("{}nsq", pre), &[k.to_string()]);
     };
     let mut ps = RecSponge::<Fr>::fresh();
-    let opr = guard_any(|| PCS::open(&ck, [&lp], &cm, &z, &mut ps, &st, None));
+    let opr = guard_any(|| PCS::<L, P>::open(&ck, [&lp], &cm, &z, &mut ps, &st, None));
     out.obs1("open", "S", opr.class());
     let pf = match opr.ok() { Some(x) => x, None => return };
     tape(&ps, "p.", out);
@@ -158,16 +159,15 @@ fn ligflow(c: &Case, out: &mut Out) {
         if as_input { out.input(&format!("{}intact", name), &[if intact { "1".into() } else { "0".into() }]); }
     };
     parts_obs("pf.", &pf[0], false, true, out);
-    use ark_poly::Polynomial;
     let val = poly.evaluate(&z);
     out.obs1("value", "F", f_to_str(&val));
     let mut vs = RecSponge::<Fr>::fresh();
-    let d = guard_any(|| PCS::check(&vk, &cm, &z, [val], &pf, &mut vs, None));
+    let d = guard_any(|| PCS::<L, P>::check(&vk, &cm, &z, [val], &pf, &mut vs, None));
     out.obs1("check", "S", decision(&d));
     tape(&vs, "v.", out);
     let delta: Fr = f_from_str(c.str1("delta"));
     let mut vs2 = RecSponge::<Fr>::fresh();
-    let d2 = guard_any(|| PCS::check(&vk, &cm, &z, [val + delta], &pf, &mut vs2, None));
+    let d2 = guard_any(|| PCS::<L, P>::check(&vk, &cm, &z, [val + delta], &pf, &mut vs2, None));
     out.obs1("check_bad", "S", decision(&d2));
     // mutated proofs: kind j k2
     for (i, toks) in c.indexed("mut") {
@@ -178,7 +178,7 @@ fn ligflow(c: &Case, out: &mut Out) {
         let intact = !(kind == "path_index" || kind == "path_node");
         parts_obs(&format!("m{}.", i), &m[0], true, intact, out);
         let mut ms = RecSponge::<Fr>::fresh();
-        let dm = guard_any(|| PCS::check(&vk, &cm, &z, [val], &m, &mut ms, None));
+        let dm = guard_any(|| PCS::<L, P>::check(&vk, &cm, &z, [val], &m, &mut ms, None));
         out.obs1(&format!("mut.{}", i), "S", decision(&dm));
         tape(&ms, &format!("m{}.", i), out);
     }
@@ -186,7 +186,14 @@ fn ligflow(c: &Case, out: &mut Out) {
 
 pub fn run(c: &Case, out: &mut Out) {
     match c.str1("sub") {
-        "ligflow" => ligflow(c, out),
+        "ligflow" => {
+            use crate::pc::Adapter;
+            use crate::schemes::{LigeroMLA, LigeroUniA};
+            match c.str1("scheme") {
+                "ligero_ml" => { let nv = Some(c.usize1("num_vars")); ligflow::<MultilinearLigero<Fr, MTConfig, SparseMultilinearExtension<Fr>, ColH<Fr>>, SparseMultilinearExtension<Fr>>(c, out, LigeroMLA::make_poly(c.get("poly"), nv), LigeroMLA::make_point(c.get("pt"))) }
+                _ => ligflow::<UnivariateLigero<Fr, MTConfig, UniPoly, ColH<Fr>>, UniPoly>(c, out, LigeroUniA::make_poly(c.get("poly"), None), LigeroUniA::make_point(c.get("pt"))),
+            }
+        }
         "proofshape" => {
             use crate::pc::Adapter;
             use crate::schemes::{BrakedownMLA, LigeroMLA, LigeroUniA};
